@@ -10,6 +10,7 @@ import (
 	"math"
 	"math/rand"
 	"os"
+	"runtime"
 	"sort"
 	"strings"
 	"sync"
@@ -447,11 +448,33 @@ func fnv64(s string) uint64 {
 
 func recordConc(rec *recorder, rng *rand.Rand, trials int, repo string) int {
 	var mu sync.Mutex
+	var heartbeat atomic.Int64
 	emit := func(e map[string]interface{}) {
+		heartbeat.Add(1)
 		mu.Lock()
 		rec.emit(e)
 		mu.Unlock()
 	}
+	// watchdog: every finished Run is a heartbeat. When nothing finishes for 120 seconds the Runs in flight will never return (the
+	// longest Run of these models takes milliseconds): the recorder reports it and exits with code 3 - Runs that do not return
+	// do not "return exactly what they return alone".
+	go func() {
+		last, since := heartbeat.Load(), time.Now()
+		for {
+			time.Sleep(2 * time.Second)
+			if h := heartbeat.Load(); h != last {
+				last, since = h, time.Now()
+				continue
+			}
+			if time.Since(since) > 120*time.Second {
+				fmt.Fprintf(os.Stderr, "HUNG: no Run has returned for %d seconds (%d events so far); the goroutines in flight are blocked\n", int(time.Since(since).Seconds()), last)
+				buf := make([]byte, 1<<16)
+				n := runtime.Stack(buf, true)
+				fmt.Fprintf(os.Stderr, "%s\n", buf[:n])
+				os.Exit(3)
+			}
+		}
+	}()
 	type namedModel struct {
 		name  string
 		bytes []byte
@@ -795,6 +818,7 @@ func recordConc(rec *recorder, rng *rand.Rand, trials int, repo string) int {
 				for seq := 1; seq <= runs; seq++ {
 					k := (seq + gi) % len(vals)
 					dg := outcome(k)
+					heartbeat.Add(1)
 					// (only deviating Runs and a sample of the others are logged: the trace would otherwise hold millions of events)
 					if dg != base[k] || seq%(runs/20+1) == 0 {
 						logged++
